@@ -89,10 +89,12 @@ func (w *world) trackAll() {
 	w.c.Track(common.EmptyAddress, txkit.A.Addr, txkit.B.Addr, txkit.C.Addr, txkit.D.Addr, whale.Addr, collector, types.MultiSignNonceAddr,
 		w.store, w.reverter, w.vault, w.issuer)
 	// addresses of contracts that creation ops of account A may produce at its next 8 nonces
-	n := w.c.Nonce(txkit.A.Addr)
-	for i := uint64(0); i < 8; i++ {
-		for _, code := range creationCodes {
-			w.c.Track(txkit.ContractAddress(txkit.A.Addr, n+i, code.init()))
+	for _, a := range []*txkit.Account{txkit.A, whale} {
+		n := w.c.Nonce(a.Addr)
+		for i := uint64(0); i < 8; i++ {
+			for _, code := range creationCodes {
+				w.c.Track(txkit.ContractAddress(a.Addr, n+i, code.init()))
+			}
 		}
 	}
 }
@@ -271,7 +273,8 @@ func (s *snapshot) restore(slot string) (*world, error) {
 // newGenesisWorld: A, B, C own 1,000,000 coins and 1000e18 units of the genesis token each; E (the whale) owns
 // 3 x (group order x unit) + 100,000 coins.
 func newGenesisWorld(trie bool) (*world, error) {
-	alloc := append(txkit.AllocWithToken(nil, genTok, txkit.LKC(1000)), minichain.Alloc{Addr: whale.Addr, Balance: whaleBalance()})
+	alloc := append(txkit.AllocWithToken(nil, genTok, txkit.LKC(1000)), minichain.Alloc{Addr: whale.Addr, Balance: whaleBalance(),
+		Tokens: map[common.Address]*big.Int{genTok: txkit.LKC(1000)}})
 	opts := minichain.Options{IsTrie: trie, Alloc: alloc, NoBalanceRecords: true}
 	c, err := minichain.New(opts)
 	if err != nil {
